@@ -31,6 +31,10 @@ type allocConcCase struct {
 	G       int   `json:"goroutines"`
 	PerG    int   `json:"ops_per_goroutine"`
 	Seed    int64 `json:"seed"`
+	// Big > 0 (IPv4): a range of this many addresses, all of them leased before the history starts except
+	// the Blocks addresses the history works on, which are scattered over the range - a nearly full large
+	// range, where every search for a free address is a long one
+	Big int `json:"big,omitempty"`
 }
 
 type allocConcEngine struct{}
@@ -44,6 +48,12 @@ func (allocConcEngine) Gen(rng *rand.Rand, tier string, i int) any {
 	if rng.Intn(2) == 0 {
 		c.V4 = true
 		c.Blocks = 1 + rng.Intn(16)
+		if rng.Intn(6) == 0 {
+			c.Big = []int{300000, 524288, 400001, 262144 + 64 + rng.Intn(100000)}[rng.Intn(4)]
+			c.Blocks = 4 + rng.Intn(13)
+			c.G = 2 + rng.Intn(5)
+			c.PerG = 600/c.G + 1
+		}
 	} else {
 		k := rng.Intn(5) // 1,2,4,8,16 blocks
 		c.Blocks = 1 << uint(k)
@@ -123,8 +133,12 @@ func (allocConcEngine) Run(ctx *fw.Ctx, cs any) {
 	var err error
 	if c.V4 {
 		start := uint32(0xc0a80000) + uint32(c.Seed&0xff)
-		pool = &model.Pool{V4: true, Start: new(big.Int).SetUint64(uint64(start)), N: uint64(c.Blocks), Page: 32}
-		a, err = bitmap.NewIPv4Allocator(u32ip(start), u32ip(start+uint32(c.Blocks)-1))
+		n := c.Blocks
+		if c.Big > 0 {
+			start, n = uint32(0x0a000000)+uint32(c.Seed&0xff), c.Big
+		}
+		pool = &model.Pool{V4: true, Start: new(big.Int).SetUint64(uint64(start)), N: uint64(n), Page: 32}
+		a, err = bitmap.NewIPv4Allocator(u32ip(start), u32ip(start+uint32(n)-1))
 	} else {
 		base := net.ParseIP("2001:db8:ffff:ffff::").Mask(net.CIDRMask(c.PoolLen, 128))
 		pool = &model.Pool{Start: new(big.Int).SetBytes(base), N: uint64(c.Blocks), Page: c.Page}
@@ -133,6 +147,42 @@ func (allocConcEngine) Run(ctx *fw.Ctx, cs any) {
 	if err != nil {
 		ctx.Viol("C05", "constructor-rejects-valid-pool", "%+v: %v", c, err)
 		return
+	}
+	// block number of the history -> block of the pool (identity unless the range is a big one)
+	blockOf := func(b int) int64 { return int64(b) }
+	historyBlock := func(idx int64) (int, bool) { return int(idx), idx >= 0 && idx < int64(c.Blocks) }
+	if c.Big > 0 {
+		prng := rand.New(rand.NewSource(c.Seed ^ 0x5bd1e995))
+		act := map[int64]int{}
+		var actList []int64
+		for len(actList) < c.Blocks {
+			// one or two near the start, the others anywhere (most of them far into the range)
+			off := int64(prng.Intn(c.Big))
+			if len(actList) == 0 {
+				off = int64(prng.Intn(64))
+			} else if len(actList) == c.Blocks-1 {
+				off = int64(c.Big - 1 - prng.Intn(3))
+			}
+			if _, dup := act[off]; !dup {
+				act[off] = len(actList)
+				actList = append(actList, off)
+			}
+		}
+		for i := 0; i < c.Big; i++ {
+			if _, active := act[int64(i)]; active {
+				continue
+			}
+			ip := pool.IP(pool.BlockBase(int64(i)))
+			got, err := a.Allocate(net.IPNet{IP: ip, Mask: net.CIDRMask(32, 32)})
+			if err != nil || !got.IP.Equal(ip) {
+				ctx.Viol("C07", "hint-not-honoured", "filling a fresh range of %d addresses by hints: Allocate(hint %s) on a free address returned %v, %v", c.Big, ip, got.IP, err)
+				return
+			}
+		}
+		ctx.Count("allocconc.big_ranges", 1)
+		ctx.Count("allocconc.big_range_addresses_leased_up_front", int64(c.Big-c.Blocks))
+		blockOf = func(b int) int64 { return actList[b] }
+		historyBlock = func(idx int64) (int, bool) { b, ok := act[idx]; return b, ok }
 	}
 	t0 := time.Now()
 	clock := func() int64 { return int64(time.Since(t0)) }
@@ -164,7 +214,7 @@ func (allocConcEngine) Run(ctx *fw.Ctx, cs any) {
 							rehint = b // give it back and ask for it again at once (a renewal): nobody else can have taken it unless they really got it
 						}
 					}
-					target := net.IPNet{IP: pool.IP(pool.BlockBase(int64(b)))}
+					target := net.IPNet{IP: pool.IP(pool.BlockBase(blockOf(b)))}
 					if c.V4 {
 						target.Mask = net.CIDRMask(32, 32)
 					} else {
@@ -183,7 +233,7 @@ func (allocConcEngine) Run(ctx *fw.Ctx, cs any) {
 					if rehint >= 0 {
 						hint, rehint = rehint, -1
 					}
-					h.IP = pool.IP(pool.BlockBase(int64(hint)))
+					h.IP = pool.IP(pool.BlockBase(blockOf(hint)))
 					if c.V4 {
 						h.Mask = net.CIDRMask(32, 32)
 					} else {
@@ -197,13 +247,17 @@ func (allocConcEngine) Run(ctx *fw.Ctx, cs any) {
 				if err == nil {
 					if v, ok := pool.AddrValue(got.IP); ok {
 						if idx, in, al := pool.Locate(v); in && al {
-							out.Idx = int(idx)
-							mine = append(mine, int(idx))
+							// (an address of a big range that is not one of the history's - they are all
+							// leased - stays -1: the model refuses it)
+							if b, ok := historyBlock(int64(idx)); ok {
+								out.Idx = b
+								mine = append(mine, b)
+							}
 						}
 					}
 				}
 				local = append(local, porcupine.Operation{ClientId: g, Input: acIn{Hint: hint}, Call: call, Output: out, Return: ret})
-				if rng.Intn(4) == 0 {
+				if c.Big == 0 && rng.Intn(4) == 0 {
 					time.Sleep(time.Duration(rng.Intn(20)) * time.Microsecond)
 				}
 			}
@@ -233,7 +287,7 @@ func (allocConcEngine) Run(ctx *fw.Ctx, cs any) {
 	case porcupine.Illegal:
 		h := describeHistory(ops, allocModel(c.Blocks))
 		for _, p := range []string{"C04", "C05", "C06", "C07", "C16"} {
-			ctx.Viol(p, "alloc-history-not-linearizable", "pool of %d blocks (v4=%v /%d->/%d), %d goroutines: the recorded Allocate/Free history has no sequential explanation (a block held by one caller was handed to another, capacity was misjudged, or a hint on a free block was not honoured)\n%s", c.Blocks, c.V4, c.PoolLen, c.Page, c.G, h)
+			ctx.Viol(p, "alloc-history-not-linearizable", "pool of %d blocks (v4=%v /%d->/%d; big range of %d addresses, the others leased up front), %d goroutines: the recorded Allocate/Free history has no sequential explanation (a block held by one caller was handed to another, capacity was misjudged, or a hint on a free block was not honoured)\n%s", c.Blocks, c.V4, c.PoolLen, c.Page, c.Big, c.G, h)
 		}
 	}
 	if overlaps > 0 {
